@@ -335,7 +335,17 @@ class FTPProcessorSession(BaseProcessorSession):
             if is_file and \
                     self._processor.fetch_params.preserve_permissions and \
                     hasattr(response.body, 'name'):
-                yield from self._apply_unix_permissions(request, response)
+                try:
+                    yield from \
+                        self._apply_unix_permissions(request, response)
+                except REMOTE_ERRORS as error:
+                    # The file itself was fetched. Only the listing of
+                    # its directory, which has the permissions, failed.
+                    _logger.error(
+                        _('Fetching permissions for ‘{url}’ '
+                          'encountered an error: {error}'),
+                        url=request.url, error=error
+                    )
 
             response.body.close()
 
